@@ -24,7 +24,7 @@ import Pog.Model.Json
   `unstructure_to_dict`                          `unstructureToDict`
   `_register_*_hooks_recursively`                `regTy`
 
-  Leaf codecs (base64, ISO-8601) are a parameter `Codecs`; theorems quantify over every lawful one, the
+  Leaf codecs (base64, ISO-8601 date-time / date / time, UUID) are a parameter `Codecs`; theorems quantify over every lawful one, the
   driver uses `Codecs.exec`, which accepts only canonical spellings (see there).
 
   TRUSTED — behaviour of cattrs 26.2 described here as executable code and validated by corr_conv.py:
@@ -112,8 +112,10 @@ inductive Val where
   | bytes (v : Str)
   | datetime (v : Str)
   | date (v : Str)
+  | time (v : Str)                          -- `datetime.time`
+  | uuid (v : Str)                          -- `uuid.UUID`
   | enum (cls : Str) (v : JsonV)            -- a member of a `str`/`int`-mixin enum
-  | opaque (kind : Str) (v : Str)          -- `uuid.UUID`, `datetime.time`: objects json cannot serialise
+  | opaque (kind : Str) (v : Str)          -- any other object json cannot serialise (a non-integral float, …)
   | list (xs : List Val)
   | dict (kvs : List (Str × Val))
   | inst (cls : Str) (fields : List (Str × Val))
@@ -173,12 +175,15 @@ structure Codecs where
   bytes : LeafCodec
   datetime : LeafCodec
   date : LeafCodec
+  time : LeafCodec
+  uuid : LeafCodec
 
 /-- Every value that can be decoded at all is recovered from its own encoding. -/
 def LeafCodec.Lawful (c : LeafCodec) : Prop :=
   ∀ s v, c.decode s = some v → c.decode (c.encode v) = some v
 
-def Codecs.Lawful (c : Codecs) : Prop := c.bytes.Lawful ∧ c.datetime.Lawful ∧ c.date.Lawful
+def Codecs.Lawful (c : Codecs) : Prop :=
+  c.bytes.Lawful ∧ c.datetime.Lawful ∧ c.date.Lawful ∧ c.time.Lawful ∧ c.uuid.Lawful
 
 /-- The values of a leaf type. -/
 def LeafCodec.Valid (c : LeafCodec) (v : Str) : Prop := ∃ s, c.decode s = some v
@@ -190,7 +195,11 @@ def LeafCodec.Valid (c : LeafCodec) (v : Str) : Prop := ∃ s, c.decode s = some
                  padding only at the end; other characters are skipped as `b64decode` does) — `b64decode` is laxer;
     * datetime : `YYYY-MM-DDTHH:MM:SS` with an optional `Z` or `±HH:MM` (not `-00:00`), `Z` ↦ `+00:00`; a bare
                  `YYYY-MM-DD` is midnight;
-    * date     : `YYYY-MM-DD`.
+    * date     : `YYYY-MM-DD`;
+    * time     : `HH:MM:SS` with an optional `Z` or `±HH:MM` (not `-00:00`), `Z` ↦ `+00:00` (`time.fromisoformat` of
+                 Python ≥ 3.11 reads a trailing `Z` as UTC; `isoformat()` writes `+00:00`);
+    * uuid     : the canonical spelling `str(UUID)` writes: 8-4-4-4-12 lower-case hexadecimal digits — `UUID(s)` is laxer
+                 (upper case, braces, `urn:uuid:`, no hyphens).
   corr_conv.py draws leaf strings from these languages and from strings CPython rejects as well. -/
 
 def b64Index (c : Char) : Option Nat :=
@@ -255,6 +264,36 @@ def isoDateTimeValid (s : Str) : Bool :=
   isoDateValid (s.take 10) && ((s.drop 10).head? == some 'T') &&
     isoClockValid ((s.drop 11).take 8) && isoOffsetValid (s.drop 19)
 
+def isoTimeValid (s : Str) : Bool := isoClockValid (s.take 8) && isoOffsetValid (s.drop 8)
+
+def isLowerHex (c : Char) : Bool := isDigitA c || (97 ≤ c.toNat && c.toNat ≤ 102)
+
+/-- `n` lower-case hexadecimal digits, then `rest`. -/
+def hexRun : Nat → Str → Option Str
+  | 0, s => some s
+  | _ + 1, [] => none
+  | n + 1, c :: cs => if isLowerHex c then hexRun n cs else none
+
+/-- `n` lower-case hexadecimal digits, a hyphen, then `rest`. -/
+def hexGroup (n : Nat) (s : Str) : Option Str :=
+  match hexRun n s with
+  | some ('-' :: rest) => some rest
+  | _ => none
+
+def uuidCanonical (s : Str) : Bool :=
+  match hexGroup 8 s with
+  | none => false
+  | some s1 =>
+    match hexGroup 4 s1 with
+    | none => false
+    | some s2 =>
+      match hexGroup 4 s2 with
+      | none => false
+      | some s3 =>
+        match hexGroup 4 s3 with
+        | none => false
+        | some s4 => hexRun 12 s4 == some []
+
 /-- `data.replace("Z", "+00:00")` -/
 def replaceZ (s : Str) : Str := s.flatMap (fun c => if c == 'Z' then "+00:00".toList else [c])
 
@@ -265,14 +304,16 @@ def Codecs.exec : Codecs :=
                     if isoDateValid (replaceZ s) then some (replaceZ s ++ "T00:00:00".toList)
                     else if isoDateTimeValid (replaceZ s) then some (replaceZ s) else none,
                   encode := id }
-    date := { decode := fun s => if isoDateValid s then some s else none, encode := id } }
+    date := { decode := fun s => if isoDateValid s then some s else none, encode := id }
+    time := { decode := fun s => if isoTimeValid (replaceZ s) then some (replaceZ s) else none, encode := id }
+    uuid := { decode := fun s => if uuidCanonical s then some s else none, encode := id } }
 
 /-! ## which leaves have hooks
 
   FACT ABOUT THE SOURCE (`converter.register_structure_hook(T, …)` / `register_unstructure_hook(T, …)` calls in
   core/cattrs_converter.py): (leaf, has structure hook, has unstructure hook). -/
 def leafSupported : List (Leaf × Bool × Bool) :=
-  [(.bytes, true, true), (.datetime, true, true), (.date, true, true)]
+  [(.bytes, true, true), (.datetime, true, true), (.date, true, true), (.time, true, true), (.uuid, true, true)]
 
 /-- Leaves cattrs itself structures (by calling the type) and unstructures (identity).  TRUSTED. -/
 def cattrsBuiltinLeaves : List Leaf := [.str, .int, .float, .bool]
@@ -296,7 +337,8 @@ inductive EKind
   | noItems                     -- dict[str, T] from a non-dict: AttributeError
   | b64                         -- binascii.Error
   | isoformat                   -- ValueError of `fromisoformat`
-  | notTemporal                 -- `Cannot convert <type> to datetime/date`
+  | notTemporal                 -- `Cannot convert <type> to datetime/date/time/UUID`
+  | uuidForm                    -- ValueError of `UUID(s)`: badly formed hexadecimal UUID string
   | enumInvalid                 -- `x is not a valid E`
   | unsupported                 -- StructureHandlerNotFoundError
   | unionNone                   -- `None is not valid for …`
@@ -381,8 +423,20 @@ def structLeaf (c : Codecs) (l : Leaf) (j : JsonV) : Except SErr Val :=
       | some v => .ok (.date v)
       | none => .error (.leaf .isoformat)
     | _ => .error (.leaf .notTemporal)
-  | .uuid => .error (.leaf .unsupported)
-  | .time => .error (.leaf .unsupported)
+  | .time =>
+    match j with
+    | .str s =>
+      match c.time.decode s with
+      | some v => .ok (.time v)
+      | none => .error (.leaf .isoformat)
+    | _ => .error (.leaf .notTemporal)
+  | .uuid =>
+    match j with
+    | .str s =>
+      match c.uuid.decode s with
+      | some v => .ok (.uuid v)
+      | none => .error (.leaf .uuidForm)
+    | _ => .error (.leaf .notTemporal)
 
 /-- Structure the items one after the other, collecting values and errors (detailed validation). -/
 def structItems (rec : JsonV → Except SErr Val) : List JsonV → List Val × List SErr
@@ -597,7 +651,7 @@ def structureFromDict (c : Codecs) (fuel : Nat) (decls : Decls) (t : Ty) (j : Js
 inductive UErr
   | typeError      -- `base64.b64encode` on a non-bytes object
   | attrError      -- `.isoformat()` / attribute access on a wrong object (e.g. `None` where a dataclass is declared)
-  | notJson        -- no exception: the RESULT contains an object `json.dumps` rejects (UUID, time, a live instance);
+  | notJson        -- no exception: the RESULT contains an object `json.dumps` rejects (an arbitrary object, a live instance);
                    -- reported as soon as such an object enters the result (a later entry under a DUPLICATED wire key
                    -- overwriting it is not modelled)
   | illTyped       -- model only: value/type combination `structure` never produces
@@ -609,6 +663,16 @@ def identityJson (v : Val) : Except UErr JsonV :=
   | some j => .ok j
   | none => .error .notJson
 
+/-- `data.isoformat()` — the body of the `datetime`, `date` and `time` unstructure hooks: any of the three kinds of
+    object has the method, everything else raises `AttributeError`. -/
+def unstrIso (c : Codecs) (v : Val) : Except UErr JsonV :=
+  match v with
+  | .datetime d => .ok (.str (c.datetime.encode d))
+  | .date d => .ok (.str (c.date.encode d))
+  | .time t => .ok (.str (c.time.encode t))
+  | _ => .error .attrError
+
+/-- The registered unstructure hook of a leaf type (`str(data)` for `UUID`); no hook = identity. -/
 def unstrLeaf (c : Codecs) (l : Leaf) (v : Val) : Except UErr JsonV :=
   if !leafHasUnstructureHook l then identityJson v else
   match l with
@@ -616,16 +680,17 @@ def unstrLeaf (c : Codecs) (l : Leaf) (v : Val) : Except UErr JsonV :=
     match v with
     | .bytes b => .ok (.str (c.bytes.encode b))
     | _ => .error .typeError
-  | .datetime =>
+  | .datetime => unstrIso c v
+  | .date => unstrIso c v
+  | .time => unstrIso c v
+  | .uuid =>
     match v with
-    | .datetime d => .ok (.str (c.datetime.encode d))
-    | .date d => .ok (.str (c.date.encode d))
-    | _ => .error .attrError
-  | .date =>
-    match v with
-    | .date d => .ok (.str (c.date.encode d))
-    | .datetime d => .ok (.str (c.datetime.encode d))
-    | _ => .error .attrError
+    | .uuid u => .ok (.str (c.uuid.encode u))
+    | .none => .ok (.str (pyStr .null))
+    | .bool b => .ok (.str (pyStr (.bool b)))
+    | .int i => .ok (.str (pyStr (.int i)))
+    | .str s => .ok (.str s)
+    | _ => .error .illTyped                       -- `str(x)` of other objects is not modelled
   | _ => identityJson v
 
 def mapE {α β ε : Type} (f : α → Except ε β) : List α → Except ε (List β)
@@ -711,6 +776,8 @@ def unstrF (c : Codecs) : Nat → List Str → Decls → Option Ty → Val → E
     | .bytes b => .ok (.str (c.bytes.encode b))
     | .datetime d => .ok (.str (c.datetime.encode d))
     | .date d => .ok (.str (c.date.encode d))
+    | .time t => .ok (.str (c.time.encode t))
+    | .uuid u => .ok (.str (c.uuid.encode u))
     | .enum _ m => .ok m
     | .opaque _ _ => .error .notJson
     | .list xs => (mapE (unstrF c n reg decls none) xs).map JsonV.arr
